@@ -1,6 +1,5 @@
 /-
-  Further facts about the queue model: version monotonicity per row id (claim exclusivity),
-  the sweep, and rows stranded between the two attempt limits (F13).
+  Further facts about the queue model: version monotonicity per row id (claim exclusivity) and the sweep.
 -/
 import Stab.Lemmas.Queue
 
@@ -59,8 +58,13 @@ theorem verGt_applyPrim {i v : Nat} {s : State} (h : VerGt i v s) (p : Prim) : V
           · exact h1
   case ackRow w j => exact verGt_subRows h (fun r hr => (List.mem_filter.mp hr).1) rfl
   case resched w j d =>
+    unfold resched
+    split
+    · exact h
+    · exact verGt_mapRows h _ (by intro r; split <;> rfl) (by intro r; split <;> exact Nat.le_refl _) rfl rfl
+  case reschedRaw j d =>
     exact verGt_mapRows h _ (by intro r; split <;> rfl) (by intro r; split <;> exact Nat.le_refl _) rfl rfl
-  case extend w j =>
+  case extendRaw j =>
     exact verGt_mapRows h _ (by intro r; split <;> rfl) (by intro r; split <;> exact Nat.le_refl _) rfl rfl
   case expire j =>
     exact verGt_mapRows h _ (by intro r; split <;> rfl) (by intro r; split <;> exact Nat.le_refl _) rfl rfl
@@ -178,175 +182,6 @@ theorem sweep_spec : ∀ (ids : List Nat) (s : State), Base s →
         have hr' : r ∈ (moveToDlq s i).rows := by
           rw [moveToDlq_rows]; simp [hr, h]
         exact ih3 r hr' hmem'
-
-
-/-! ### F13: a row between the two limits is stuck -/
-
-/-- row `i` exists with `queue.max_attempts ≤ attempts = a < mx = its own max_attempts column` -/
-def Stuck (i a mx : Nat) (s : State) : Prop :=
-  Base s ∧ s.maxAttempts ≤ a ∧ a < mx ∧ ∃ r ∈ s.rows, r.id = i ∧ r.attempts = a ∧ r.maxAtt = mx
-
-/-- the primitive is not an explicit removal of row `i` -/
-def primKeeps (i : Nat) : Prim → Bool
-  | .ackRow _ j | .moveToDlq j => j != i
-  | _ => true
-
-theorem stuck_mapRows {i a mx : Nat} {s s' : State} (h : Stuck i a mx s) (hb' : Base s') (f : Row → Row)
-    (hf : ∀ r, (f r).id = r.id ∧ (f r).attempts = r.attempts ∧ (f r).maxAtt = r.maxAtt)
-    (h1 : s'.rows = s.rows.map f) (h2 : s'.maxAttempts = s.maxAttempts) : Stuck i a mx s' := by
-  obtain ⟨_, h3, h4, r, hr, hi, ha, hm⟩ := h
-  refine ⟨hb', by rw [h2]; exact h3, h4, f r, by rw [h1]; exact List.mem_map.mpr ⟨r, hr, rfl⟩, ?_⟩
-  obtain ⟨q1, q2, q3⟩ := hf r
-  exact ⟨by omega, by omega, by omega⟩
-
-theorem stuck_filterRows {i a mx : Nat} {s s' : State} (h : Stuck i a mx s) (hb' : Base s') (j : Nat) (hj : j ≠ i)
-    (h1 : s'.rows = s.rows.filter (fun r => r.id != j)) (h2 : s'.maxAttempts = s.maxAttempts) : Stuck i a mx s' := by
-  obtain ⟨_, h3, h4, r, hr, hi, ha, hm⟩ := h
-  refine ⟨hb', by rw [h2]; exact h3, h4, r, ?_, hi, ha, hm⟩
-  rw [h1]
-  simp only [List.mem_filter, bne_iff_ne, ne_eq]
-  exact ⟨hr, by omega⟩
-
-theorem stuck_sameRows {i a mx : Nat} {s s' : State} (h : Stuck i a mx s) (hb' : Base s')
-    (h1 : ∀ r ∈ s.rows, r ∈ s'.rows) (h2 : s'.maxAttempts = s.maxAttempts) : Stuck i a mx s' := by
-  obtain ⟨_, h3, h4, r, hr, hi, ha, hm⟩ := h
-  exact ⟨hb', by rw [h2]; exact h3, h4, r, h1 r hr, hi, ha, hm⟩
-
-theorem moveToDlq_maxAttempts (s : State) (j : Nat) : (moveToDlq s j).maxAttempts = s.maxAttempts := by
-  unfold moveToDlq; split <;> rfl
-
-theorem stuck_moveToDlq {i a mx : Nat} {s : State} (h : Stuck i a mx s) (j : Nat) (hj : j ≠ i) :
-    Stuck i a mx (moveToDlq s j) :=
-  stuck_filterRows h (base_moveToDlq h.1 j) j hj (moveToDlq_rows s j) (moveToDlq_maxAttempts s j)
-
-theorem stuck_applyPrim {i a mx : Nat} {s : State} (h : Stuck i a mx s) (p : Prim) (hp : primKeeps i p = true) :
-    Stuck i a mx (applyPrim s p) := by
-  have hb' := base_applyPrim h.1 p
-  cases p <;> simp only [applyPrim] at hb' ⊢
-  case pushRow m b d => exact stuck_sameRows h hb' (fun r hr => by simp [pushRow, hr]) rfl
-  case setSel w =>
-    exact stuck_sameRows h hb' (fun r hr => by unfold setSel; split <;> exact hr)
-      (by unfold setSel; split <;> rfl)
-  case dropSel w => exact stuck_sameRows h hb' (fun r hr => hr) rfl
-  case claimSel w c =>
-    obtain ⟨hb, h3, h4, r, hr, hi, ha, hm⟩ := h
-    have hu := unique_of_pairwise (fun r : Row => r.id) s.rows hb.idNodup
-    unfold claimSel at hb' ⊢
-    split
-    · exact ⟨hb, h3, h4, r, hr, hi, ha, hm⟩
-    · rename_i x hx
-      obtain ⟨hxs, _⟩ := selOf_mem hx
-      simp only [hx] at hb'
-      dsimp only at hb' ⊢
-      split
-      · exact ⟨base_dropSel hb w, h3, h4, r, hr, hi, ha, hm⟩
-      · rename_i r0 hr0
-        obtain ⟨hm0, hrid0, hrv0⟩ := matched_mem hr0
-        have hne : r0.id ≠ i := by
-          intro e
-          have : r0 = r := hu r0 hm0 r hr (by omega)
-          subst this
-          have := (hb.selAtt x hxs r0 hm0 hrid0 hrv0)
-          omega
-        have hb1 := base_claimRows (base_dropSel hb w) x.id x.version
-        have key : Stuck i a mx { ({ s with sels := dropSels w s.sels } : State) with
-            rows := claimRows s.rows x.id x.version } := by
-          refine ⟨hb1, h3, h4, r, ?_, hi, ha, hm⟩
-          simp only [claimRows, List.mem_map]
-          refine ⟨r, hr, ?_⟩
-          have : (r.id == x.id) = false := by simp; omega
-          simp [this]
-        split
-        · rename_i hbad
-          simp only [hr0, hbad, if_true] at hb'
-          exact stuck_sameRows key hb' (fun _ h => h) rfl
-        · split
-          · exact stuck_moveToDlq key r0.id hne
-          · exact key
-  case ackRow w j =>
-    have hj : j ≠ i := by simpa [primKeeps] using hp
-    exact stuck_filterRows h hb' j hj rfl rfl
-  case resched w j d => exact stuck_mapRows h hb' _ (by intro r; split <;> simp) rfl rfl
-  case extend w j => exact stuck_mapRows h hb' _ (by intro r; split <;> simp) rfl rfl
-  case expire j => exact stuck_mapRows h hb' _ (by intro r; split <;> simp) rfl rfl
-  case mature j => exact stuck_mapRows h hb' _ (by intro r; split <;> simp) rfl rfl
-  case moveToDlq j =>
-    have hj : j ≠ i := by simpa [primKeeps] using hp
-    exact stuck_moveToDlq h j hj
-  case replay d =>
-    refine stuck_sameRows h hb' ?_ ?_
-    · intro r hr; unfold replay; split
-      · exact hr
-      · simp [hr]
-    · unfold replay; split <;> rfl
-  case kill => exact stuck_sameRows h hb' (fun r hr => hr) rfl
-
-theorem stuck_applyPrims {i a mx : Nat} {s : State} (h : Stuck i a mx s) (ps : List Prim)
-    (hp : ∀ p ∈ ps, primKeeps i p = true) : Stuck i a mx (applyPrims s ps) := by
-  induction ps generalizing s with
-  | nil => exact h
-  | cons p ps ih =>
-    exact ih (stuck_applyPrim h p (hp p (by simp))) (fun q hq => hp q (by simp [hq]))
-
-/-- the op is neither `ack _ i` nor an explicit `moveToDlq i` (crashed or not) -/
-def actKeeps (i : Nat) : Act → Bool
-  | .ack _ j | .moveToDlq j => j != i
-  | _ => true
-
-def opKeeps (i : Nat) : Op → Bool
-  | .act a | .crash a _ => actKeeps i a
-
-theorem primsOf_keeps {i a mx : Nat} {s : State} (h : Stuck i a mx s) (act : Act) (b : Option Nat)
-    (hk : actKeeps i act = true) : ∀ p ∈ primsOf s act b, primKeeps i p = true := by
-  intro p hp
-  cases act <;> simp only [primsOf] at hp
-  case sweep =>
-    simp only [List.mem_map] at hp
-    obtain ⟨j, hj, rfl⟩ := hp
-    have hj' : j ∈ sweepIds s := by
-      split at hj
-      · exact List.mem_of_mem_take hj
-      · exact hj
-    simp only [sweepIds, List.mem_map, List.mem_filter, decide_eq_true_eq] at hj'
-    obtain ⟨r0, ⟨hr0, hge⟩, rfl⟩ := hj'
-    obtain ⟨hb, h3, h4, r, hr, hi, ha, hm⟩ := h
-    have hu := unique_of_pairwise (fun r : Row => r.id) s.rows hb.idNodup
-    simp only [primKeeps, bne_iff_ne, ne_eq]
-    intro e
-    have : r0 = r := hu r0 hr0 r hr (by omega)
-    subst this
-    omega
-  case ack w j =>
-    split at hp <;> simp at hp
-    subst hp
-    simpa [primKeeps, actKeeps] using hk
-  case moveToDlq j =>
-    split at hp <;> simp at hp
-    subst hp
-    simpa [primKeeps, actKeeps] using hk
-  all_goals (try split at hp) <;> (try split at hp) <;> simp at hp <;>
-    first
-    | (subst hp; rfl)
-    | (rcases hp with h | h <;> (subst h; rfl))
-
-theorem stuck_next {i a mx : Nat} {s : State} (h : Stuck i a mx s) (op : Op) (hk : opKeeps i op = true) :
-    Stuck i a mx (next s op) := by
-  cases op with
-  | act act => exact stuck_applyPrims h _ (primsOf_keeps h act none hk)
-  | crash act k =>
-    apply stuck_applyPrims h
-    intro p hp
-    simp only [opPrims, List.mem_append, List.mem_singleton] at hp
-    rcases hp with hp | rfl
-    · exact primsOf_keeps h act (some k) hk p hp
-    · rfl
-
-theorem stuck_run {i a mx : Nat} {s : State} (h : Stuck i a mx s) (ops : List Op)
-    (hk : ∀ op ∈ ops, opKeeps i op = true) : Stuck i a mx (run s ops) := by
-  induction ops generalizing s with
-  | nil => exact h
-  | cons o os ih =>
-    exact ih (stuck_next h o (hk o (by simp))) (fun q hq => hk q (by simp [hq]))
 
 
 /-! ### pairwise exclusivity as a count -/
